@@ -28,6 +28,18 @@ type groupOp struct {
 }
 
 type groupTaskKey struct{}
+type groupSchedKey struct{}
+
+// parkHere is a yield point of the scheduled group the context belongs to (no-op outside a group): callbacks that the
+// code under test invokes on behalf of the application (a subject check, a claims hook) are places where a real
+// application blocks, so the scheduler may switch tasks there.
+func parkHere(ctx context.Context, point string) {
+	name, ok := ctx.Value(groupTaskKey{}).(string)
+	s, ok2 := ctx.Value(groupSchedKey{}).(*kernel.Sched)
+	if ok && ok2 {
+		s.Park(name, point, nil)
+	}
+}
 
 // runGroup interleaves the operations; faults>0 lets the scheduler fail up to that many storage calls.
 func runGroup(w *world.World, o *kernel.Outcome, stream string, ops []*groupOp, faults int) []string {
@@ -72,7 +84,7 @@ func runGroup(w *world.World, o *kernel.Outcome, stream string, ops []*groupOp, 
 			}
 			op.started = true
 			op.inv = len(sched.Trace)
-			resp := op.do(context.WithValue(context.Background(), groupTaskKey{}, name))
+			resp := op.do(context.WithValue(context.WithValue(context.Background(), groupTaskKey{}, name), groupSchedKey{}, sched))
 			op.ret = len(sched.Trace)
 			op.resp = resp
 		})
